@@ -6,6 +6,7 @@ import OptRs.Driver.FF
 import OptRs.Driver.SD
 import OptRs.Driver.Xyz
 import OptRs.Driver.Uff
+import OptRs.Model.GenTypes
 open OptRs.Driver
 
 partial def loop (h : IO.FS.Stream) (out : IO.FS.Stream) (f : String → String) : IO Unit := do
@@ -34,5 +35,11 @@ def main (args : List String) : IO UInt32 := do
   | ["wrapper"] => loop stdin stdout wrapperLine; return 0
   | ["b3d"] => loop stdin stdout b3dLine; return 0
   | ["cli"] => loop stdin stdout cliLine; return 0
+  | ["table"] =>
+    -- rows of the compiled ATOM_TYPES that differ from what the generator makes of atom_types.txt
+    let ms := OptRs.Model.GenTypes.mismatches
+    for n in ms do stdout.putStrLn ("MISMATCH " ++ String.ofList (n.map Char.ofNat))
+    stdout.putStrLn s!"rows {OptRs.Gen.atomTypes.length} source {OptRs.Gen.sourceRows.length} mismatches {ms.length}"
+    return 0
   | ["atoms-oracle"] => loop stdin stdout AtomsOracle.check; return 0
   | _ => IO.eprintln "usage: optrs-model <stream>"; return 2
